@@ -6,6 +6,7 @@ import Nstd.Json.LemmasParse
 set_option linter.unusedSimpArgs false
 set_option linter.unusedVariables false
 namespace Nstd.Json
+open Nstd.Generated.Json
 
 /-! ### white space -/
 
@@ -44,8 +45,9 @@ theorem readToken_sp (line : Nat) (r : List Byte) : readToken line (32 :: r) = r
 
 /-- `\u00XX` for a control character is read back as that character -/
 theorem readStr_ctrl (c : Byte) (hc : c < 32) (h0 : c ≠ 0) (f line : Nat) (acc rest : List Byte) :
-    readStr (f + 1) line acc (92 :: 117 :: 48 :: 48 :: hexLower (c / 16 % 16) :: hexLower (c % 16) :: rest)
+    readStr (f + 1) line acc (escDefaultPrefix ++ [hexLower (c / 16 % 16), hexLower (c % 16)] ++ rest)
       = readStr f line (acc ++ [c]) rest := by
+  rw [escDefaultPrefix_eq]
   have : c = 1 ∨ c = 2 ∨ c = 3 ∨ c = 4 ∨ c = 5 ∨ c = 6 ∨ c = 7 ∨ c = 8 ∨ c = 9 ∨ c = 10 ∨ c = 11 ∨ c = 12 ∨
       c = 13 ∨ c = 14 ∨ c = 15 ∨ c = 16 ∨ c = 17 ∨ c = 18 ∨ c = 19 ∨ c = 20 ∨ c = 21 ∨ c = 22 ∨ c = 23 ∨
       c = 24 ∨ c = 25 ∨ c = 26 ∨ c = 27 ∨ c = 28 ∨ c = 29 ∨ c = 30 ∨ c = 31 := by omega
@@ -72,27 +74,29 @@ theorem readStr_esc : ∀ (s : List Byte), 0 ∉ s → ∀ (f line : Nat) (acc r
       have IH := fun acc' => ih hs f line acc' rest (by omega)
       have app : ∀ x : Byte, acc ++ [x] ++ s = acc ++ x :: s := by intro x; simp
       rw [escLoop]
-      by_cases h34 : c = 34
-      · subst h34; simp [readStr_cons, IH]
-      by_cases h92 : c = 92
-      · subst h92; simp [readStr_cons, IH]
-      by_cases h8 : c = 8
-      · subst h8; simp [readStr_cons, IH]
-      by_cases h12 : c = 12
-      · subst h12; simp [readStr_cons, IH]
-      by_cases h10 : c = 10
-      · subst h10; simp [readStr_cons, IH]
-      by_cases h13 : c = 13
-      · subst h13; simp [readStr_cons, IH]
-      by_cases h9 : c = 9
-      · subst h9; simp [readStr_cons, IH]
-      by_cases hlt : c < 32
-      · simp only [hc, h34, h92, h8, h12, h10, h13, h9, hlt, if_false, if_true]
-        rw [List.append_assoc]
-        simp only [List.cons_append, List.nil_append]
-        rw [readStr_ctrl c hlt hc, IH, app]
-      · simp only [hc, h34, h92, h8, h12, h10, h13, h9, hlt, if_false]
+      simp only [hc, if_false]
+      by_cases hset : escSet.contains c = true
+      · simp only [hset, if_true]
+        cases hl : lookup c escTable with
+        | some t =>
+          obtain ⟨e, ht, hu⟩ := esc_inverts hl
+          subst ht
+          simp only [List.cons_append, List.nil_append, List.append_assoc]
+          rw [readStr_cons]
+          simp only [(by decide : (92:Nat) ≠ 0), (by decide : (92:Nat) ≠ 13), (by decide : (92:Nat) ≠ 10), if_false,
+            if_true, hu]
+          rw [IH, app]
+        | none =>
+          obtain ⟨hlt, _⟩ := escDefault_ctrl hset hl
+          simp only
+          rw [List.append_assoc, readStr_ctrl c hlt hc, IH, app]
+      · have hset' : escSet.contains c = false := by simpa using hset
+        obtain ⟨h34, h92, hge⟩ := escSet_raw hset'
+        have hge' : 32 ≤ c := by rcases hge with h | h; exact absurd h hc; exact h
+        simp only [hset', Bool.false_eq_true, if_false]
         rw [List.cons_append, readStr_cons]
+        have h13 : c ≠ 13 := by omega
+        have h10 : c ≠ 10 := by omega
         simp only [hc, h34, h92, h10, h13, if_false]
         rw [IH, app]
 
